@@ -19,7 +19,9 @@ pub struct C09;
 fn restyle(text: &str, rng: &mut Rng, fault: bool) -> String {
     let mut out = String::new();
     for _ in 0..rng.below(6) {
-        out.push_str(["\n", "// pushed down\n", "// ünïcödé 😀 €\n", "/* block\n   comment */\n"][rng.below(4)]);
+        // (among them: characters that other tools treat as line breaks - form feed, vertical tab, U+0085,
+        // U+2028, U+2029 - in a comment and as blanks between tokens; none of them is a line break for LSP)
+        out.push_str(["\n", "// pushed down\n", "// ünïcödé 😀 €\n", "/* block\n   comment */\n", "// sep\u{2028}arator ne\u{85}l ff\u{c} vt\u{b} ps\u{2029} end\n", "\u{c}\n", "defvar page\u{c}=\u{2028}1\u{b};\u{85}\n"][rng.below(7)]);
     }
     let crlf = rng.chance(1, 2);
     let nonascii = rng.chance(1, 2);
